@@ -26,11 +26,11 @@ FORMULAS = {
 SUITES = {
     "C05": "scripted,real,edited",
     "C06": "scripted,real,edited,oor",
-    "C07": "scripted,real",
-    "C08": "scripted,real,edited",
+    "C07": "scripted,real,special",
+    "C08": "scripted,real,edited,special",
     "C18": "scripted,real",
     "C19": "scripted,real,edited",
-    "C20": "scripted,pairs,real",
+    "C20": "scripted,pairs,real,special",
 }
 
 TITLE = {
@@ -210,8 +210,32 @@ def run_check(ctx):
         elif r["not_consumed"]:
             tool_errors.append("%s: trace not consumed although no property was violated"
                                % os.path.basename(f["file"]))
+    cli = None
+    if pid == "C20":
+        # CLI clause: the real binary ends with status 0 and both files, or with a message and a
+        # non-zero status, never with a panic (spec/Pipeline.tla ExitOK, judged by PipelineTrace)
+        import pipe_checks
+        pm = vp.run_tlc("Pipeline", pipe_checks.mc_cfg(3, 2, 1), "C20_pipe_mc", workers=4, timeout=1200, deque=False)
+        if pm.get("error") or pm["violations"]:
+            tool_errors.append("Pipeline model: %s %s" % (pm.get("error"), pm["violations"]))
+        states += pm["distinct"]
+        transitions += pm["generated"]
+        obs = pipe_checks.cli_failures("C20", tier, seed, want_cli=True, want_pool=False)
+        if obs["error"]:
+            tool_errors.append("PipelineTrace: " + str(obs["error"]))
+        for what, state in obs["failures"]:
+            fnd = vp.match_finding(pid, what + " " + json.dumps(state))
+            if fnd:
+                known.append("KNOWN-FINDING: property=%s %s" % (pid, fnd["what"]))
+                continue
+            rp = vp.save_replay(pid, "C20Cli_seed%d" % seed, {"property": pid, "formula": "C20Cli", "failures": [{"what": what, "state": state}]})
+            violations.append(("C20Cli", what, rp))
+        cli = {"cli_invocations": obs["stats"]["cli_invocations"], "events": obs["events"],
+               "pipeline_model_states": pm["distinct"], "formulas": ["C20Cli", "ExitOK", "Terminates"]}
+        nruns += obs["stats"]["cli_invocations"]
     wall = time.time() - t0
     coverage = {
+        "cli_clause": cli,
         "states": states, "transitions": transitions,
         "traces_validated_against_impl": nruns,
         "samples": samples,
